@@ -22,6 +22,17 @@ def dt_of(us):
     return EPOCH + timedelta(microseconds=us)
 
 
+ZONES = [None, timezone(timedelta(hours=5, minutes=30)), timezone(timedelta(hours=-8)), None, timezone(timedelta(hours=14))]
+
+
+def zoned_dt(us):
+    """the instant `us` as an aware datetime in a zone chosen by the instant itself (UTC, +05:30, -08:00, +14:00):
+    what a caller hands in; equal instants in different zones must behave alike"""
+    z = ZONES[(us // 1000000) % len(ZONES)]
+    d = dt_of(us)
+    return d if z is None else d.astimezone(z)
+
+
 def us_of(dt):
     if not isinstance(dt, datetime):
         return BAD_TIME + 1
@@ -89,7 +100,7 @@ def cpoint(p):
 def real_point(tf, p):
     kw = {}
     if p["time"] is not None:
-        kw["time"] = p.get("dt") or dt_of(p["time"])
+        kw["time"] = p.get("dt") or zoned_dt(p["time"])
     kw["measurement"] = p["meas"]
     kw["tags"] = dict(p["tags"])
     kw["fields"] = dict(p["fields"])
@@ -127,7 +138,7 @@ def cvalue(v):
 
 def real_value(v):
     k = v[0]
-    return {"t": lambda: dt_of(v[1]) if len(v) < 3 else v[2], "s": lambda: v[1], "none": lambda: None, "n": lambda: v[1]}[k]()
+    return {"t": lambda: zoned_dt(v[1]) if len(v) < 3 else v[2], "s": lambda: v[1], "none": lambda: None, "n": lambda: v[1]}[k]()
 
 
 def cpart(p):
@@ -226,7 +237,7 @@ def real_upd_kwargs(u):
         if a is None:
             continue
         if a[0] == "static":
-            kw[names[k]] = (u.get("dt") or dt_of(a[1])) if k == "time" else (dict(a[1]) if isinstance(a[1], dict) else a[1])
+            kw[names[k]] = (u.get("dt") or zoned_dt(a[1])) if k == "time" else (dict(a[1]) if isinstance(a[1], dict) else a[1])
         else:
             kw[names[k]] = tabs[k][a[1]]
     if u.get("unset_fields"):
